@@ -31,6 +31,11 @@ stack = { PUSH(a | b) ~ (POP ~ b | PEEK ~ DROP ~ a) }
 insens = { ^"ab" ~ ('a'..'b')* }
 nl = { (NEWLINE | "c")* ~ b }
 soi = { SOI ~ a* ~ EOI }
+anyrule = { ANY ~ a? ~ ANY* }
+silent_ref = _{ seq }
+atomic_via_silent = @{ b ~ silent_ref }
+compound_via_silent = ${ silent_ref ~ b }
+insens2 = { ^"Éb" ~ a? }
 untilc = @{ (!("c" | "*/") ~ ANY)* }
 "# } }
 
@@ -58,6 +63,11 @@ stack = { PUSH(a | b) ~ (POP ~ b | PEEK ~ DROP ~ a) }
 insens = { ^"ab" ~ ('a'..'b')* }
 nl = { (NEWLINE | "c")* ~ b }
 soi = { SOI ~ a* ~ EOI }
+anyrule = { ANY ~ a? ~ ANY* }
+silent_ref = _{ seq }
+atomic_via_silent = @{ b ~ silent_ref }
+compound_via_silent = ${ silent_ref ~ b }
+insens2 = { ^"Éb" ~ a? }
 untilc = @{ (!("c" | "*/") ~ ANY)* }
 "#]
     pub struct P;
@@ -87,6 +97,11 @@ stack = { PUSH(a | b) ~ (POP ~ b | PEEK ~ DROP ~ a) }
 insens = { ^"ab" ~ ('a'..'b')* }
 nl = { (NEWLINE | "c")* ~ b }
 soi = { SOI ~ a* ~ EOI }
+anyrule = { ANY ~ a? ~ ANY* }
+silent_ref = _{ seq }
+atomic_via_silent = @{ b ~ silent_ref }
+compound_via_silent = ${ silent_ref ~ b }
+insens2 = { ^"Éb" ~ a? }
 untilc = @{ (!("c" | "*/") ~ ANY)* }
 "#]
     pub struct T;
@@ -103,7 +118,7 @@ fn from_thin(t: &ThinToken<t::Rule>) -> Tree {
 }
 /// the documented difference: descendants of atomic / compound-atomic tokens are not exposed
 fn prune(t: &Tree) -> Tree {
-    let atomic = ["seq_atomic", "seq_compound", "nest", "nest2", "untilc"].contains(&t.rule.as_str());
+    let atomic = ["seq_atomic", "seq_compound", "nest", "nest2", "untilc", "atomic_via_silent", "compound_via_silent"].contains(&t.rule.as_str());
     Tree { rule: t.rule.clone(), start: t.start, end: t.end, children: if atomic { vec![] } else { t.children.iter().map(prune).collect() } }
 }
 fn shift(t: &Tree, d: usize) -> Tree { Tree { rule: t.rule.clone(), start: t.start + d, end: t.end + d, children: t.children.iter().map(|c| shift(c, d)).collect() } }
@@ -268,6 +283,10 @@ fn all_rules(s: &str, cases: &mut u64) -> Result<(), String> {
     check_rule!(nl, false, s, cases);
     check_rule!(soi, false, s, cases);
     check_rule!(untilc, true, s, cases);
+    check_rule!(anyrule, false, s, cases);
+    check_rule!(atomic_via_silent, true, s, cases);
+    check_rule!(compound_via_silent, true, s, cases);
+    check_rule!(insens2, false, s, cases);
     check_tree!(a, s, cases); check_tree!(seq, s, cases); check_tree!(seq_nonatomic, s, cases); check_tree!(rep, s, cases); check_tree!(rep_n, s, cases);
     check_tree!(choice, s, cases); check_tree!(opt, s, cases); check_tree!(pred, s, cases); check_tree!(usesilent, s, cases); check_tree!(stack, s, cases);
     check_tree!(insens, s, cases); check_tree!(nl, s, cases); check_tree!(soi, s, cases);
@@ -281,6 +300,8 @@ fn all_sub(s: &str, cases: &mut u64) -> Result<(), String> {
     check_sub!(soi, s, cases);
     check_sub!(untilc, s, cases);
     check_sub!(insens, s, cases);
+    check_sub!(anyrule, s, cases);
+    check_sub!(insens2, s, cases);
     Ok(())
 }
 
@@ -288,7 +309,7 @@ fn all_sub(s: &str, cases: &mut u64) -> Result<(), String> {
 fn nb_gen_vs_pest() {
     let l = bound(5);
     let mut cases = 0u64;
-    for s in strings(&["a", "b", " ", "c", "B"], l).iter().chain(strings(&["a", "b", "/", "*", " "], l).iter()).chain(strings(&["a", "b", "\n", "\r", "c", "é"], l.min(4)).iter()) {
+    for s in strings(&["a", "b", " ", "c", "B"], l).iter().chain(strings(&["a", "b", "/", "*", " "], l).iter()).chain(strings(&["a", "b", "\n", "\r", "c", "é", "É", "😀"], l.min(4)).iter()) {
         let r = std::panic::catch_unwind(std::panic::AssertUnwindSafe(|| all_rules(s, &mut cases)));
         match r {
             Ok(Ok(())) => {}
@@ -296,13 +317,13 @@ fn nb_gen_vs_pest() {
             Err(_) => { println!("NB-RESULT name=nb_gen_vs_pest status=fail cases={} key=input={:?} detail=C09: panic", cases, s); return; }
         }
     }
-    println!("NB-RESULT name=nb_gen_vs_pest status=ok cases={} key=- detail=18 rules x all strings<={} chars over 3 alphabets: verdict/offset/tree vs pest, check==parse incl. error text, full parse, error location, traversal helpers", cases, l);
+    println!("NB-RESULT name=nb_gen_vs_pest status=ok cases={} key=- detail=22 rules x all strings<={} chars over 3 alphabets: verdict/offset/tree vs pest, check==parse incl. error text, full parse, error location, traversal helpers", cases, l);
 }
 #[test]
 fn nb_gen_subinput() {
     let l = bound(4);
     let mut cases = 0u64;
-    for s in strings(&["a", "b", " ", "c", "é"], l).iter().chain(strings(&["a", "*", "/", "c"], l).iter()) {
+    for s in strings(&["a", "b", " ", "c", "é", "😀"], l).iter().chain(strings(&["a", "*", "/", "c"], l).iter()).chain(strings(&["É", "é", "b", "B"], l).iter()) {
         let r = std::panic::catch_unwind(std::panic::AssertUnwindSafe(|| all_sub(s, &mut cases)));
         match r {
             Ok(Ok(())) => {}
@@ -310,7 +331,7 @@ fn nb_gen_subinput() {
             Err(_) => { println!("NB-RESULT name=nb_gen_subinput status=fail cases={} key=input={:?} detail=C09: panic", cases, s); return; }
         }
     }
-    println!("NB-RESULT name=nb_gen_subinput status=ok cases={} key=- detail=7 rules x all strings<={} chars over 2 alphabets x all sub-ranges: Span / Position sub-input vs fresh copy (partial and full, offsets and trees)", cases, l);
+    println!("NB-RESULT name=nb_gen_subinput status=ok cases={} key=- detail=9 rules x all strings<={} chars over 2 alphabets x all sub-ranges: Span / Position sub-input vs fresh copy (partial and full, offsets and trees)", cases, l);
 }
 
 
